@@ -170,9 +170,41 @@ func craftedInputs() []epInput {
 	meta := box("meta", append([]byte{0, 0, 0, 0}, box("iinf", append(infe0, make([]byte, 40)...))...))
 	add("bmff-infe-zero-size", append(append(append([]byte{}, ftypHeic...), meta...), make([]byte, 64)...))
 	add("bmff-size-1-64bit", append(append([]byte{}, ftypCrx...), append([]byte{0, 0, 0, 1, 'm', 'd', 'a', 't', 0x80, 0, 0, 0, 0, 0, 0, 0}, make([]byte, 64)...)...))
+	// boxes whose short payload ends exactly at the end of the 4096-byte read window: indexing past the peeked bytes then
+	// also runs past the capacity of the slice bufio hands out
+	alignEnd := func(name string, tail []byte, after []byte) {
+		pad := 4096 - len(ftypHeic) - len(tail) - 8
+		f := append(append([]byte{}, ftypHeic...), box("free", make([]byte, pad))...)
+		f = append(f, tail...)
+		add(name, append(f, after...))
+	}
+	alignEnd("bmff-hdlr-short-at-window-end", box("meta", append(append([]byte{0, 0, 0, 0}, box("hdlr", []byte{0, 0, 0, 0, 1, 2, 3})...), 0)), make([]byte, 64))
+	cr3uuid := []byte{0x85, 0xc0, 0xb6, 0x87, 0x82, 0x0f, 0x11, 0xe0, 0x81, 0x11, 0xf4, 0xce, 0x46, 0x2b, 0x6a, 0x48}
+	alignEnd("bmff-ctbo-short-at-window-end", box("moov", box("uuid", append(append([]byte{}, cr3uuid...), box("CTBO", []byte{0, 1})...))), make([]byte, 64))
+	{
+		// meta with an Exif item whose data carries no "Exif" marker, placed so that the 16 peeked bytes end the window
+		infe := box("infe", append([]byte{2, 0, 0, 0, 0, 5, 0, 0}, []byte("Exif\x00")...))
+		iinf := box("iinf", append([]byte{0, 0, 0, 0, 0, 1}, infe...))
+		iloc := box("iloc", append([]byte{0, 0, 0, 0, 0x44, 0, 0, 1, 0, 5, 0, 0, 0, 1}, append(binary.BigEndian.AppendUint32(nil, 4088), 0, 0, 0, 40)...))
+		metaB := box("meta", append([]byte{0, 0, 0, 0}, append(iinf, iloc...)...))
+		pre := append(append([]byte{}, ftypHeic...), metaB...)
+		// mdat header at 4080-8-? : the reader discards offset-b.offset-16 after the 8-byte header, i.e. stands at offset-8 = 4080
+		lead := 4080 - len(pre) - 8
+		f := append(pre, box("mdat", make([]byte, lead+200))...)
+		add("bmff-exif-item-no-marker-at-window-end", f)
+	}
 	// JPEG edge cases
 	add("jpeg-eoi-then-marker", append([]byte{0xFF, 0xD8, 0xFF, 0xD9, 0xFF, 0xE0, 0x00, 0x10}, make([]byte, 100)...))
 	add("jpeg-ff-start", append([]byte{0xFF, 0xE0, 0x00, 0x10}, make([]byte, 100)...))
+	// every segment kind with a length field at the boundaries of the 16-bit range, followed by enough bytes to skip over
+	for _, mk := range []byte{0xE0, 0xE1, 0xE2, 0xEE, 0xC0, 0xC4, 0xDB, 0xFE, 0xDD} {
+		for _, ln := range []int{0, 1, 2, 3, 0xFFFD, 0xFFFE, 0xFFFF} {
+			j := []byte{0xFF, 0xD8, 0xFF, mk, byte(ln >> 8), byte(ln)}
+			j = append(j, make([]byte, 0x10010)...)
+			j = append(j, 0xFF, 0xD9)
+			add(fmt.Sprintf("jpeg-seg-%02x-len-%d", mk, ln), j)
+		}
+	}
 	// XMP edge cases
 	add("xmp-tab-separated", []byte("<x:xmpmeta xmlns:x=\"adobe:ns:meta/\"><rdf:RDF><rdf:Description\ttiff:Make=\"Canon\"\ttiff:Model=\"X\"/></rdf:RDF></x:xmpmeta>"))
 	add("xmp-unterminated", []byte("<x:xmpmeta xmlns:x=\"adobe:ns:meta/\"><rdf:RDF><rdf:Description tiff:Make=\"Canon"))
@@ -263,5 +295,20 @@ func corpus(c *Ctx, mutPerSample, jpegGen int) []epInput {
 		out = append(out, mutate(c, in, mutPerSample/4+1)...)
 	}
 	out = append(out, jpegGenInputs(c, jpegGen)...)
+	out = append(out, bmffGenInputs(c, jpegGen/3+4)...)
+	return out
+}
+
+// generated ISOBMFF box trees (CR3- and HEIF-style, a third of them with wrong size fields, some truncated)
+func bmffGenInputs(c *Ctx, n int) []epInput {
+	var out []epInput
+	for i := 0; i < n; i++ {
+		t := genBmff(c, i%3 == 2)
+		b := t.bytes()
+		if i%7 == 6 {
+			b = b[:c.Rng.Intn(len(b)+1)]
+		}
+		out = append(out, epInput{fmt.Sprintf("bmffgen/%d.cr3", i), b, "bmffgen"})
+	}
 	return out
 }
